@@ -248,7 +248,11 @@ class Run:
             json.dump(ev, f, indent=1, sort_keys=True, default=str)
         for line in self.known:
             print(f'KNOWN-FINDING: property={self.prop} {line}')
-        for path, no_input in self.violations:
+        # violations with a concrete failing input come first; when there is one, the
+        # "no-failing-input-found" reports (broken obligation / correspondence) are subsumed by it
+        with_input = [v for v in self.violations if not v[1]]
+        shown = with_input[:3] if with_input else self.violations[:3]
+        for path, no_input in shown:
             print(f'VIOLATION property={self.prop} replay={path}' + (' no-failing-input-found' if no_input else ''))
         sys.stdout.flush()
         return 1 if self.violations else 0
